@@ -128,14 +128,18 @@ where
 
     let oks = results.map_err(|e| OpError::Compute(ComputeError::Exec(Box::new(e))))?;
 
-    // Sum the gas spent by the compute programs, failing rather than overflowing.
+    // Sum the gas spent by the compute programs, failing rather than overflowing
+    // or exceeding the gas that was left for them.
     let mut children_gas: Gas = 0;
     for (gas, ..) in &oks {
-        children_gas = children_gas.checked_add(*gas).ok_or(OutOfGasError {
-            spent: children_gas,
-            op_gas: *gas,
-            limit: gas_limit.total,
-        })?;
+        children_gas = children_gas
+            .checked_add(*gas)
+            .filter(|&spent| spent <= gas_limit.total)
+            .ok_or(OutOfGasError {
+                spent: children_gas,
+                op_gas: *gas,
+                limit: gas_limit.total,
+            })?;
     }
 
     // Process compute program results.
